@@ -19,8 +19,13 @@ def run(ctx):
     work = common.stage_spec(os.path.join(ctx.tmp, "spec-asm"))
     mc = common.run_tlc(work, "MC_Assembler", cfg="MC_Assembler_quick.cfg" if ctx.quick else "MC_Assembler.cfg", workers=14, timeout=3000)
     common.require_ok(mc, "MC_Assembler")
-    allobs = s1common.record(ctx, "send,recv", passes=1 if ctx.quick else 4, nrecv=60 if ctx.quick else 120, full=not ctx.quick)
-    lines, rejs, res = s1common.judge(ctx, allobs, ("e4send", "e4recv"))
+    # the line engine as a producer of the async queue it is the consumer of (violation notices): no wedge, everything goes out
+    nt = common.run_tlc(work, "Secs1Notify", cfg="MC_Secs1Notify.cfg", workers=4, timeout=900)
+    common.require_ok(nt, "MC_Secs1Notify (repaired notify path)")
+    ntf = common.run_tlc(work, "Secs1Notify", cfg="MC_Secs1Notify_found.cfg", workers=2, timeout=900)
+    allobs = s1common.record(ctx, "send,recv,wedge", passes=1 if ctx.quick else 4,
+                             nrecv=60 if ctx.quick else 120, full=not ctx.quick)
+    lines, rejs, res = s1common.judge(ctx, allobs, ("e4send", "e4recv", "e4wedge"))
     faults = [d for d in lines if d.get("fault")]
     if len(faults) > max(2, len(lines) // 20):
         raise common.Inconclusive("too many harness faults in SECS-I scenarios: %d of %d (%s)" % (len(faults), len(lines), faults[0]["fault"]))
@@ -31,6 +36,8 @@ def run(ctx):
         key = "c17:%s:%s" % (d["t"], why)
         if d["t"] == "e4send":
             key += ":len%d" % len(d["body"])
+        if d["t"] == "e4wedge":
+            key += ":" + d["violation"]
         g = groups.setdefault(key, dict(n=0, first=d))
         g["n"] += 1
     for sig, g in sorted(groups.items()):
@@ -53,14 +60,17 @@ def run(ctx):
                 nblocks += 1
     ctx.cov.update(states=mc["distinct"] + res["states"], transitions=mc["generated"], traces_validated_against_impl=nrecv + nsend,
                    model=dict(module="mc/MC_Assembler over impl/Secs1Assembler + fn/E4Block", distinct_states=mc["distinct"], depth=mc["depth"],
-                              invariants="Sound OnceInOrder Transparent Complete", alphabet=72),
+                              invariants="Sound OnceInOrder Transparent Complete", alphabet=72,
+                              notify_model=dict(module="impl/Secs1Notify", distinct_states=nt["distinct"], invariants="NeverWedged NoDeadlock", liveness="EverythingGoesOut",
+                                                as_found_variant="NeverWedged %s with NotifyInline=TRUE (finding F10, fixed)" % ("violated" if ntf["invariant"] else "not violated"))),
                    evaluations=nsend + nblocks, distinct_nontrivial=len({len(d["body"]) for d in lines if d["t"] == "e4send"}) + len(seqs),
                    rule="send half: one evaluation = one message sent by a live connection (body lengths at the 244-byte boundaries x 4 role/device combos), "
                         "compared byte for byte with Split(); receive half: one evaluation = one block the peer put on the line, one trace = one "
                         "class sequence of 3..7 blocks; distinct = distinct body lengths + distinct class sequences",
                    send_messages=nsend, recv_sequences=nrecv, distinct_sequences=len(seqs), block_classes=classes, harness_faults=len(faults),
                    exhaustive=False, samples=[common.short(lines[0], 500), common.short([d for d in lines if d["t"] == "e4recv"][0], 900)],
-                   checker_cmd="tlc MC_Assembler; vh s1 --parts send,recv; tlc OracleE4")
+                   wedge_scenarios=sum(1 for d in lines if d["t"] == "e4wedge"),
+                   checker_cmd="tlc MC_Assembler; tlc Secs1Notify; vh s1 --parts send,recv,wedge; tlc OracleE4")
     ctx.assumptions += ["T1 60 ms, T2 150 ms, T4 300 ms; T4 is judged with a tolerance of +-60 ms (either outcome accepted inside the band)",
                         "loopback TCP stands in for the serial line; the peer serves the library's own S9 transmissions between its blocks"]
 
